@@ -68,7 +68,9 @@ CHECKS = {
             "TLC visits every reachable state of the walk for every sequence of the scope and every outcome of the internal "
             "permutations (enumerated, not sampled): never stranded, every transition consumed, dinucleotide multiset preserved, "
             "terminates; the KeepLast=FALSE mutant must produce the stranded counter-example. Each complete behaviour is one "
-            "implementation test; recorded public calls are checked for composition, flanks, validity, digests and determinism.",
+            "implementation test; recorded public calls (all one-hot dtypes incl. half precision, regions of several hundred positions, "
+            "seeds at the 32-bit edges and as numpy integers) are checked for composition, flanks, validity, digests and determinism, "
+            "also between two interpreter processes with different hash salts.",
             "Trusted: TLC; py_func is the body numba compiles (compiled path covered by the trace lane); regions for "
             "dinucleotide_shuffle are 'either' unless n=1 and length >= 3.",
             "DESIGN.md §5 C02"),
